@@ -5,6 +5,7 @@ import (
 	"go/constant"
 	"go/token"
 	"go/types"
+	"os"
 	"sort"
 	"strings"
 
@@ -351,7 +352,7 @@ func (fi *FuncInfo) sym1(v ssa.Value, depth int) *Sym {
 				// field of a local struct cell that is written exactly once as a whole
 				if r := loc.Root(); r.K == KAlloc && (loc.K == KField || loc.K == KIndex) {
 					if whole := fi.structCellValue(r.V); whole != nil {
-						return substRoot(loc, r, rec(whole))
+						return simplifyField(substRoot(loc, r, rec(whole)))
 					}
 					if lit := fi.structLit(r.V, depth); lit != nil {
 						return simplifyField(substRoot(loc, r, lit))
@@ -777,6 +778,11 @@ func simplifyField(s *Sym) *Sym {
 					return base.Args[i]
 				}
 			}
+			if os.Getenv("RAFTLINT_DEBUG") != "" {
+				fmt.Fprintf(os.Stderr, "simplifyField: no match fld=%v in %v (%d args)\n", s.Fld, st, len(base.Args))
+			}
+		} else if os.Getenv("RAFTLINT_DEBUG") != "" {
+			fmt.Fprintf(os.Stderr, "simplifyField: KLit of non-struct %v\n", base.Typ)
 		}
 	}
 	return s
